@@ -52,7 +52,55 @@ func psum(s []IntType, n int) IntType {
 	return t
 }
 
+// rngSame(): no source was drawn from between the old and the current state.
+func rngSame() bool { panic("spec only") }
+
+// isFresh(x): x is nil or was allocated after function entry.
+func isFresh(x any) bool { panic("spec only") }
+
+// ---- lemma functions: the contract is proved from the empty body; ghost code calls them ----
+
+// for 0 <= a <= t the product a*h lies between 0 and t*h
+func lemmaMulBetween(a, t, h IntType) {}
+
 // ---- pure spec functions ----
+
+// specPick: how many of the sorted dice are summed (kl/kh keep N, dl/dh drop N, clamped to [0,times]).
+func specPick(isKeepLH, times, lowNum, highNum IntType) IntType {
+	p := times
+	if isKeepLH != 0 {
+		if isKeepLH == 1 || isKeepLH == 3 {
+			p = lowNum
+		} else {
+			p = highNum
+		}
+		if isKeepLH > 2 {
+			p = times - p
+		}
+		if p < 0 {
+			p = 0
+		}
+		if p > times {
+			p = times
+		}
+	}
+	return p
+}
+
+// specLo / specHi: lowest / highest value one shown die can take in the given mode.
+func specLo(mode int, dicePoints IntType, lo, hi *IntType) IntType {
+	if mode == 1 {
+		return specClamp(dicePoints, lo, hi)
+	}
+	return specClamp(1, lo, hi)
+}
+
+func specHi(mode int, dicePoints IntType, lo, hi *IntType) IntType {
+	if mode == -1 {
+		return specClamp(1, lo, hi)
+	}
+	return specClamp(dicePoints, lo, hi)
+}
 
 func specClamp(x IntType, lo, hi *IntType) IntType {
 	if hi != nil && x > *hi {
@@ -90,10 +138,66 @@ func _roll64
 func Roll
   props C04 C05 C15
   requires dicePoints >= 0
+  assigns rng.pos
+  ensures [C15] dicePoints == 0 || mod == 1 || mod == -1 ==> rngSame()
   ensures [C04 C15] dicePoints == 0 ==> result == 0
   ensures [C15] dicePoints > 0 && mod == -1 ==> result == 1
   ensures [C15] dicePoints > 0 && mod == 1 ==> result == dicePoints
   ensures [C04 C05] dicePoints > 0 && mod != 1 && mod != -1 ==> 1 <= result && result <= dicePoints
+
+func lemmaMulBetween
+  props C04 C15
+  pure
+  requires 0 <= a && a <= t
+  ensures t*h >= 0 ==> 0 <= a*h && a*h <= t*h
+  ensures t*h <= 0 ==> t*h <= a*h && a*h <= 0
+
+func RollCommon
+  props C04 C15
+  requires times >= 1 && dicePoints >= 1
+  requires 0 <= isKeepLH && isKeepLH <= 4
+  requires (isKeepLH == 1 || isKeepLH == 3) ==> lowNum >= 1
+  requires (isKeepLH == 2 || isKeepLH == 4) ==> highNum >= 1
+  requires [C04] times * specHi(mode, dicePoints, diceMin, diceMax) <= math.MaxInt64 && times * specLo(mode, dicePoints, diceMin, diceMax) >= math.MinInt64
+  assigns rng.pos elem.IntType elem.string
+  ghost var glo IntType = specLo(mode, dicePoints, diceMin, diceMax)
+  ghost var ghi IntType = specHi(mode, dicePoints, diceMin, diceMax)
+  loop 1
+    invariant 0 <= i && i <= times && IntType(len(nums)) == i
+    invariant isFresh(nums)
+    invariant diceMax != nil ==> *diceMax == old(*diceMax)
+    invariant diceMin != nil ==> *diceMin == old(*diceMin)
+    invariant forall k in [0, len(nums)): glo <= nums[k] && nums[k] <= ghi
+    invariant mode == 1 || mode == -1 ==> rngSame()
+    decreases int(times - i)
+  loop 2
+    invariant 0 <= i && i <= pickNum
+    invariant forall k in [0, len(nums)): glo <= nums[k] && nums[k] <= ghi
+    invariant num == psum(nums, int(i))
+    invariant i * glo <= num && num <= i * ghi
+    decreases int(pickNum - i)
+  ghost at loop 2 begin: lemmaMulBetween(i+1, times, ghi); lemmaMulBetween(i+1, times, glo)
+  loop 3
+    invariant 0 <= i && i <= len(nums)
+    invariant i > 0 ==> len(text) >= 2
+    decreases len(nums) - i
+  loop 4
+    invariant 0 <= i && i <= IntType(len(nums))
+    invariant len(text) >= 1
+    invariant i > 0 ==> len(text) >= 2
+    decreases len(nums) - int(i)
+  ensures [C04] IntType(len(nums)) == times
+  ensures [C04] forall k in [0, len(nums)): glo <= nums[k] && nums[k] <= ghi
+  ensures [C04] old(specClamp(1, diceMin, diceMax)) <= glo && ghi <= old(specClamp(dicePoints, diceMin, diceMax))
+  ensures [C04] (isKeepLH == 1 || isKeepLH == 4) ==> forall a in [0, len(nums)): forall b in [a, len(nums)): nums[a] <= nums[b]
+  ensures [C04] (isKeepLH == 2 || isKeepLH == 3) ==> forall a in [0, len(nums)): forall b in [a, len(nums)): nums[a] >= nums[b]
+  ensures [C04] pickNum == specPick(isKeepLH, times, lowNum, highNum)
+  ensures [C04] result0 == psum(nums, int(pickNum))
+  ensures [C15] specPick(isKeepLH, times, lowNum, highNum) * glo <= result0
+  ensures [C15] result0 <= specPick(isKeepLH, times, lowNum, highNum) * ghi
+  ensures [C15] mode == -1 ==> glo == ghi && glo == old(specClamp(1, diceMin, diceMax))
+  ensures [C15] mode == 1 ==> glo == ghi && glo == old(specClamp(dicePoints, diceMin, diceMax))
+  ensures [C15] mode == 1 || mode == -1 ==> rngSame()
 
 // ---- lemmas (raw SMT-LIB, proved on every run; expected answer: unsat) ----
 
